@@ -330,6 +330,37 @@ def check_containers(P, rng, sh, tag):
         raise Bad('debug link with a wrong checksum accepted')
     except ELFError:
         n += 1
+    # the same pair as files on disk, opened by path; then the debug file is changed in place (same path, same size) and
+    # the link followed again in this process: the checksum is a statement about the bytes that are there now
+    if rng.random() < 0.5:
+        with oracles.Scratch() as sc:
+            mp = sc.write('main.elf', stripped)
+            dp = sc.write(fname.decode(), dbg)
+            e1 = ELFFile.load_from_path(mp)
+            try:
+                d = dump(e1.get_dwarf_info())
+            finally:
+                e1.stream.close()
+            cmp_dumps(ref, d, 'separate debug file on disk, opened by path')
+            changed = bytearray(dbg)
+            changed[rng.randrange(len(changed))] ^= rng.choice([1, 0x40, 0xff])
+            sc.write(fname.decode(), bytes(changed))
+            e2 = ELFFile.load_from_path(mp)
+            try:
+                e2.get_dwarf_info()
+                raise Bad('a debug file changed in place (same path, same size) is accepted under the checksum of its old contents')
+            except ELFError:
+                n += 1
+            finally:
+                e2.stream.close()
+            sc.write(fname.decode(), dbg)
+            e3 = ELFFile.load_from_path(mp)
+            try:
+                cmp_dumps(ref, dump(e3.get_dwarf_info()), 'separate debug file on disk, restored after a change')
+            finally:
+                e3.stream.close()
+            n += 2
+            sh.count('debuglink_pairs_on_disk_changed_in_place')
     # follow_links=False on the stripped file: no debug data, whatever the loader
     d0 = ELFFile(io.BytesIO(stripped), stream_loader=loader).get_dwarf_info(follow_links=False)
     if d0.has_debug_info:
